@@ -60,7 +60,7 @@ def run_case(case):
 
     seq = case["seq"]
     rec = {"seq": seq, "bus": bus, "target": case.get("target", [1, 0]), "req": case.get("req", [0]),
-           "scan": case.get("scan", [])}
+           "scan": case.get("scan", []), "preload": case.get("preload", [])}
     ret = {"k": "none", "bits": [], "bytes": [], "raw": ["none", 0], "map": []}
     gen = None
     mapper = None
@@ -83,6 +83,8 @@ def run_case(case):
             gen = ds.SetEventSchemes(dev, inst, EventScheme(s) if (0 <= s <= 4 and not case.get("ints")) else s)
         else:
             mapper = DeviceInstanceTypeMapper()
+            for ps, pi, pt in case.get("preload", []):          # what an earlier scan (of other units) left behind
+                mapper.add_type(short_address=ps, instance_number=pi, instance_type=pt)
             gen = mapper.autodiscover(case["addresses"])
         ev, out = drive(gen, answer, 6000)
     except Exception as e:  # noqa: constructor-time refusal
@@ -202,7 +204,12 @@ def cases(tier, seed):
         fault = (0, "none")
         if k % 5 == 0:
             fault = (rng.randrange(1, 40), rng.choice(["silent", "err"]))
-        cs.append({"seq": "discover", "bus": _bus(devs, rng, fault=fault), "addresses": addresses, "scan": scan})
+        c = {"seq": "discover", "bus": _bus(devs, rng, fault=fault), "addresses": addresses, "scan": scan}
+        if rng.random() < 0.4:
+            # a mapper that has been used before: entries of units since replaced (other type) or removed
+            c["preload"] = [[d["short"], rng.randrange(0, max(1, len(d["inst"]) + 1)), rng.choice([1, 2, 3, 4, 6])]
+                            for d in devs[:6] if rng.random() < 0.7] + [[rng.randrange(64), rng.randrange(4), rng.choice([1, 3, 4])]]
+        cs.append(c)
     # a fault at every answer position of small scans (enabled / disabled / typed instances mixed)
     for variant in range(3 if tier == "quick" else 12):
         devs = []
